@@ -1290,3 +1290,11 @@ VP("C13-R2C-mut-list-default-shared", "C13", "extracted _default_for returns the
    "            return list(declared)", "            return declared")
 VP("C13-R2C-mut-guard-inverted", "C13", "extracted _default_for: guard inverted (lists returned raw)", "C13-R2C", LIST,
    "        if not isinstance(declared, list):\n            return declared", "        if isinstance(declared, list):\n            return declared")
+VP("C14-R2C-mut-format-no-joiner", "C14", "%-formatted name without the '_' joiner", "C14-R2C", CORE,
+   '                name = "%s_%s" % (parent_prefix, name)', '                name = "%s%s" % (parent_prefix, name)')
+VP("C14-R2C-mut-format-swapped", "C14", "%-formatted name with key and prefix swapped", "C14-R2C", CORE,
+   '                name = "%s_%s" % (parent_prefix, name)', '                name = "%s_%s" % (name, parent_prefix)')
+VP("C14-R2C-mut-prefix-upper", "C14", "aliased prefix upper-cased", "C14-R2C", CORE,
+   '                name = "%s_%s" % (parent_prefix, name)', '                name = "%s_%s" % (parent_prefix.upper(), name)')
+VP("C14-R2C-mut-explicit-overwritten", "C14", "explicit variable names overwritten by the derived one", "C14-R2C", CORE,
+   "        if self.env is True or (self.env is None and has_prefix):", "        if self.env or (self.env is None and has_prefix):")
